@@ -27,7 +27,13 @@ def verify_function(prog, spec, con, mode='seq', options=None):
     for p in f['freevars']:
         v = ex.fresh_val(p['t'], 'fv_' + p['n'], st)
         bindings.append(v)
-        env[p['n']] = ('val', v)
+        tt = prog.under(p['t'])[1]
+        if tt['kind'] == 'pointer' and isinstance(v.x, PAddr):
+            # a free variable is the address of the captured variable; specs name the variable itself
+            env[p['n']] = ('addr', v.x, tt['elem'])
+            st.pc.append(Addr.aid(v.x.term()) != 0)
+        else:
+            env[p['n']] = ('val', v)
     # pre-existing pointers have non-negative ids
     ex.cur_env = env
     spec.begin(ex, st, con, env)
